@@ -3,6 +3,9 @@ import Btdht.Props.C03
 import Btdht.Props.C05
 import Btdht.Props.C06
 import Btdht.Props.C07
+import Btdht.Proofs.NetServer
+import Btdht.Proofs.NetRun
+import Btdht.Proofs.NetCheck
 /-!
 # C01 — Announced peers are found by every other node's search (end to end)
 
@@ -12,25 +15,34 @@ bootstrapped node yields the announcer's IP with its configured announce port (o
 port when none is configured). This keeps holding for 24 hours after the last announce and stops
 holding once 24 hours have passed without a re-announce."
 
-PARTIAL. The end-to-end statement is a composition along the path
-announcer's search → token → announce_peer → storing node's peer store → get_peers reply → searcher's
-stream. Each link is proved for all inputs/histories at model level:
-* `C01_token_accepted` (C06): the token a node hands out in a get_peers reply is accepted from the
-  same IP for at least 10 minutes — an announce that follows its search within seconds is accepted;
-* `C01_announce_stores`: an accepted announce on a serving node with room stores exactly the pair
-  (info-hash, announcer's IP with the announced port, or the UDP source port when implied) — the
-  contact C01 speaks of (`C01_contact`) — and is acknowledged;
-* `C01_found_iff_announced_within_24h` (C07): after any history of announces and look-ups a node
-  returns an address for an info-hash iff its last successful announce is less than 24 h old — the
-  "keeps holding for 24 hours ... stops holding" clause, per storing node;
-* `C01_served`: a get_peers reply lists the stored addresses of the requester's family (up to the
-  reply cap of C17), in particular the announcer's;
-* `C01_yielded` (C03): the searcher's stream yields every value of every answer it accepts.
-Not proved in Lean: that in every network of 2..9 mutually known nodes with latencies below 1 s the
-announcer's search reaches (and gets tokens from) the nodes the searcher's search later queries —
-i.e. the routing/liveness part (C02's E1-E4 on real tables). That composition is decided by the
-[C01] oracle of the node engine on networks of real `MainlineDht` instances (2..9 nodes, IPv4/IPv6,
-announce port set or implied, offsets from seconds to beyond 24 h), in lockstep with the node model.
+PROVED as a composition over a network of handler models (second half of this file; network layer
+`Proofs/Net.lean`, invariant `Proofs/NetInv.lean`, client side `Proofs/ReachG.lean`):
+* `C01_server_contract`: a serving node whose table lists exactly the other nodes keeps doing so
+  through any queries and answers `get_peers` with its token, all the other nodes, the stored contacts;
+* `C01_announce_reaches_all`: in every loss-free run with latencies ≤ D (2·D < 1.5 s, finding F01) of
+  such a network, once an announcing search has ended at T1, each of the 8 nodes closest to the
+  info-hash (every node when there are at most 8) holds (info-hash, announcer's IP : announce port or
+  source port) with an insertion time in [T1, T1 + D] — or its announce is still in flight, which is
+  impossible after T1 + D;
+* `C01_search_finds`: a search in such a network yields every contact that some node holds alive;
+* `C01_expired_not_found`: and yields nothing but contacts some node held less than 24 h before it started;
+* `C01_end_to_end`: announce by one node, then a search from any node ending less than 24 h after the
+  announcing search: the searcher's stream yields the announcer's contact.
+What is ASSUMED (hypotheses, see the doc comments): the network is as in C01's premise when each
+search starts (`Ready`: serving nodes, tables listing exactly all the others as good — hence ≤ 9
+nodes —, at most 39 other stored pairs, nothing in flight, one search at a time, the searching node
+has no stale timer entries); each search lies within a 10-minute window (token validity, C06);
+timer entries do not fire early; ids differ within 160 bits. What happens *between* two searches
+more than 10 minutes apart (table refresh) is not modelled: `Ready` for the second search is a
+hypothesis there (`ready_next` derives it when both lie in one window).
+A finding of this proof: a reply names the requester itself (every other node lists it), the search
+then queries its own address and — the node serving — announces to itself too; so with exactly 9
+serving nodes the announces go to the 8 closest of the 9 *including the announcer*, and the farthest
+other node may get none: "every other node stores it" holds for ≤ 8 nodes, "some 8 nodes store it and
+every later search finds it" for 9.
+The links used, each proved for all inputs/histories at model level:
+* `C01_token_accepted` (C06), `C01_contact`, `C01_announce_stores`,
+  `C01_found_iff_announced_within_24h` (C07), `C01_served`, `C01_served_mem`, `C01_yielded` (C03).
 -/
 namespace Btdht
 
@@ -106,5 +118,340 @@ theorem C01_yielded (l : Lookup) (env : LEnv) (fr : Handle) (tid : Tid) (rsp : R
   obtain ⟨sends, _, heq⟩ := C03_yields_exactly l env fr tid rsp entry hf
   rw [heq]
   exact List.mem_append_right _ (List.mem_map.mpr ⟨a, ha, rfl⟩)
+
+/-! ## The composition over a network -/
+
+/-- **C01 (server contract)**. A node that serves queries (`readOnly = false`), whose sends succeed
+and whose routing table lists exactly the handles `M` — all of its own address family, at most 8,
+in its single initial bucket, each with an answer recent enough to be `Good` until the instant `G`
+(`Serves M G s`, `Knows`) — keeps all that through any run of queries (`ping`, `find_node`,
+`get_peers`, `announce_peer`, from anybody, with any content, at any instants), and answers every
+`get_peers` for `ih` from `src` handled at `now ≤ G` with exactly one datagram to `src`, echoing the
+transaction id: a response carrying its own id, the token made for `src`'s IP with the current
+secret of its token store (after the rotation check at `now`), as `values` the stored contacts of
+`ih` of the requester's family (up to the cap 100 / 40, C17), and as node list of its own family
+exactly the handles `M` (every one of them, and nothing else). -/
+theorem C01_server_contract (M : List Handle) (G : Nat) (s : HState) (h : Serves M G s) (ops : List (HOp × Nat))
+    (hops : ∀ p ∈ ops, ∃ tid r src, p.1 = HOp.incoming tid (.req r) src) :
+    Serves M G (s.runOps ops) ∧
+    ∀ (tid : InTid) (id ih : Bytes) (src : Addr) (now : Nat), now ≤ G →
+      ∃ rs, ((s.runOps ops).handleRequest tid (.getPeers id ih none) src now).2 = [.send src tid (.resp rs) true] ∧
+        rs.id = s.selfId ∧
+        rs.token = some (tokEnc ⟨src.ip, ((s.runOps ops).tokens.refreshCheck now).curr⟩) ∧
+        rs.values = ((((s.runOps ops).store.find ih now).2.filter (fun a => a.v6 = src.v6)).take (if src.v6 then 40 else 100)) ∧
+        (∀ x ∈ (if s.v6 then rs.nodes6 else rs.nodes4), x ∈ M) ∧ (∀ x ∈ M, x ∈ (if s.v6 then rs.nodes6 else rs.nodes4)) := by
+  have key : ∀ (ops : List (HOp × Nat)) (s : HState), Serves M G s →
+      (∀ p ∈ ops, ∃ tid r src, p.1 = HOp.incoming tid (.req r) src) →
+      Serves M G (s.runOps ops) ∧ (s.runOps ops).selfId = s.selfId ∧ (s.runOps ops).v6 = s.v6 := by
+    intro ops
+    induction ops with
+    | nil => intro s h _; exact ⟨h, rfl, rfl⟩
+    | cons p rest ih =>
+      intro s h hops
+      obtain ⟨op, now⟩ := p
+      obtain ⟨tid, r, src, hop⟩ := hops (op, now) List.mem_cons_self
+      simp only at hop
+      subst hop
+      obtain ⟨e1, e2, _⟩ := handleRequest_static s tid r src now
+      obtain ⟨a, b, c⟩ := ih (s.hstep (.incoming tid (.req r) src) now) (serves_request h tid r src now)
+        (fun p hp => hops p (List.mem_cons_of_mem _ hp))
+      exact ⟨a, b.trans e1, c.trans e2⟩
+  obtain ⟨hs, e1, e2⟩ := key ops s h hops
+  refine ⟨hs, fun tid id ih src now hn => ?_⟩
+  obtain ⟨rs, r1, r2, r3, r4, r5, r6⟩ := serves_getPeers hs tid id ih src now hn
+  rw [e2] at r5 r6
+  exact ⟨rs, by rw [r1], r2.trans e1, r3, r4, r5, r6⟩
+
+/-- the whole run of one search: started at `T0`, some steps, the end-game entry fires at `T1`, some more steps -/
+def Phase.ops (P : Phase) (ops1 : List (NOp × Nat)) (T1 : Nat) (ops2 : List (NOp × Nat)) : List (NOp × Nat) :=
+  (.start P.ia P.ih P.ann, P.T0) :: (ops1 ++ (.fire P.ia, T1) :: ops2)
+
+/-- **C01 (the announces reach the storing nodes)**. `P` describes a network (`Proofs/NetInv.lean`):
+the handles `P.N` of its nodes — ids pairwise distinct, of 20 bytes and differing from each other
+within the first 160 bits, addresses pairwise distinct and of one family, none the placeholder
+handles (`NetWF`) — a one-way latency bound `P.D` with `2·D < 1.5 s` (known finding F01), and one
+announcing search: node `P.ia` (handle `P.a`, announce port `P.port`) searches `P.ih` from `T0`,
+everything considered lies before `P.G ≤ T0 + 10 min` (the token validity of C06).
+`Ready P cfg0`: just before, every node serves (`readOnly = false`), its sends succeed, its routing
+table lists exactly all the other nodes as good until `P.G` (`Knows`: hence at most 9 nodes, no
+bucket ever overflows), stores hold at most 39 other pairs (room, C17 cap), no search runs, nothing
+is in flight, the searching node has no pending timer entry.
+`NetRun P.D cfg0 (P.ops ops1 T1 ops2)`: a loss-free run with latencies ≤ `D` (`Proofs/Net.lean`) in
+which the search is started at `T0`, and — after any steps `ops1`: deliveries and timer firings at
+any node — the step at `T1` pops the search's end-game timer entry (`SearchEnds`: "the search has
+ended at `T1`"), followed by any steps `ops2`; all steps happen by `P.G` and start no other search
+(`RunOk`). Then, at the end of the run, **each of the 8 nodes closest to the info-hash** (all nodes,
+the announcer included, when there are at most 8: `closest8_all`) **holds the pair (info-hash,
+announcer's IP with the announce port — or the UDP source port when none is configured) with an
+insertion time between `T1` and `T1 + D`** — or, as long as `T1 + D` has not passed, its
+`announce_peer` is still in flight. -/
+theorem C01_announce_reaches_all (P : Phase) (hW : NetWF P) (hann : P.ann = true) (cfg0 : NetCfg) (hR : Ready P cfg0)
+    (hTG : P.T0 ≤ P.G) (ops1 ops2 : List (NOp × Nat)) (T1 : Nat)
+    (hrun : NetRun P.D cfg0 (P.ops ops1 T1 ops2)) (hok1 : RunOk P ops1) (hT1 : T1 ≤ P.G) (hok2 : RunOk P ops2)
+    (hends : SearchEnds (cfg0.run ((.start P.ia P.ih P.ann, P.T0) :: ops1)) P.ia) :
+    ∀ x ∈ closest8 P.ih P.N,
+      ((cfg0.run (P.ops ops1 T1 ops2)).now ≤ T1 + P.D ∧ ∃ p ∈ (cfg0.run (P.ops ops1 T1 ops2)).flight, IsAnnTo P x p) ∨
+      ∃ (k : Nat) (n : NNode) (t : Nat), (cfg0.run (P.ops ops1 T1 ops2)).nodes[k]? = some n ∧ n.handle = x ∧
+        Held n.st.store ⟨P.ih, connectAddr P.port P.a.addr⟩ t ∧ T1 ≤ t ∧ t ≤ T1 + P.D := by
+  obtain ⟨c, h, _⟩ := phase_run hW hR hTG ops1 ops2 T1 hrun hok1 hT1 hok2 hends
+  exact ann_result h hann (run_flight_timely P.D _ cfg0 (by simp [Phase.ops]) hrun)
+
+/-- **C01 (a search finds what the nodes hold)**. Same setting, for any search (announcing or
+not). `P.Must` marks nodes that hold the pair `(P.ih, P.x)` — `P.x` of the network's address family
+— with an insertion time that keeps it alive until `P.G` (part of `Ready`: `NodeOk.storeMust`). If
+there is such a node, then by the time the search has ended its stream `(P.ia, P.stream)` has
+yielded `P.x`. -/
+theorem C01_search_finds (P : Phase) (hW : NetWF P) (cfg0 : NetCfg) (hR : Ready P cfg0)
+    (hTG : P.T0 ≤ P.G) (ops1 ops2 : List (NOp × Nat)) (T1 : Nat)
+    (hrun : NetRun P.D cfg0 (P.ops ops1 T1 ops2)) (hok1 : RunOk P ops1) (hT1 : T1 ≤ P.G) (hok2 : RunOk P ops2)
+    (hends : SearchEnds (cfg0.run ((.start P.ia P.ih P.ann, P.T0) :: ops1)) P.ia)
+    (x : Handle) (hx : x ∈ P.N) (hm : P.Must x) :
+    (P.ia, P.stream, P.x) ∈ (cfg0.run (P.ops ops1 T1 ops2)).yields := by
+  obtain ⟨c, _, hy⟩ := phase_run hW hR hTG ops1 ops2 T1 hrun hok1 hT1 hok2 hends
+  exact hy x hx hm
+
+/-- **C01 (nothing else is found: expiry)**. Same setting. `P.Src h y` is any property such that,
+when the search starts, every contact `y` a node `h` holds for `P.ih` with an insertion time less
+than 24 h before `T0` satisfies it (`Ready.stores`). Then every address yielded during the run —
+the history `P.Y0` of earlier yields aside — is yielded on the search's stream and satisfies `Src`
+for some node: a contact whose last announce, at every node, is 24 h old or older when the search
+starts is not found (take `Src h y := y ≠ that contact`, or the set of live contacts). -/
+theorem C01_expired_not_found (P : Phase) (hW : NetWF P) (cfg0 : NetCfg) (hR : Ready P cfg0)
+    (hTG : P.T0 ≤ P.G) (ops1 ops2 : List (NOp × Nat)) (T1 : Nat)
+    (hrun : NetRun P.D cfg0 (P.ops ops1 T1 ops2)) (hok1 : RunOk P ops1) (hT1 : T1 ≤ P.G) (hok2 : RunOk P ops2)
+    (hends : SearchEnds (cfg0.run ((.start P.ia P.ih P.ann, P.T0) :: ops1)) P.ia) :
+    ∀ e ∈ (cfg0.run (P.ops ops1 T1 ops2)).yields,
+      e ∈ P.Y0 ∨ (e.1 = P.ia ∧ e.2.1 = P.stream ∧ ∃ h ∈ P.N, P.Src h e.2.2) := by
+  obtain ⟨c, h, _⟩ := phase_run hW hR hTG ops1 ops2 T1 hrun hok1 hT1 hok2 hends
+  exact h.ysound
+
+/-- **C01 (end to end: announce, then search from another node)**. Phase `P1`: node `P1.ia` runs an
+announcing search for `ih`, ended at `T1` (hypotheses of `C01_announce_reaches_all`); let `cfg1` be
+the network at the end of that run, more than `D` after `T1`. Phase `P2`, on the same nodes and for
+the same info-hash, started in `cfg1` by any node `P2.ia`: any search whose window ends less than 24 h
+after `T1` (`P2.G < T1 + 24 h`; the window itself spans at most 10 minutes) — provided the network
+is `Ready` for it: still serving, tables still listing everybody as good until `P2.G`, nothing in
+flight (what happens between the two searches — refresh traffic, clock — is not modelled: this is
+a hypothesis; `ready_next` discharges it when both searches lie in one window). `P2.Must` is *defined*
+as "the nodes holding the announcer's contact alive until `P2.G`" (`HoldsLive`), so the store part
+of `Ready P2 cfg1` is no assumption. Then the second search **yields the announcer's IP with its
+announce port (or its UDP source port when none is configured)**. -/
+theorem C01_end_to_end (P1 P2 : Phase) (hW1 : NetWF P1) (hW2 : NetWF P2) (hann : P1.ann = true)
+    (cfg0 : NetCfg) (hR1 : Ready P1 cfg0) (hTG1 : P1.T0 ≤ P1.G) (ops1 ops2 : List (NOp × Nat)) (T1 : Nat)
+    (hrun1 : NetRun P1.D cfg0 (P1.ops ops1 T1 ops2)) (hok1 : RunOk P1 ops1) (hT1 : T1 ≤ P1.G) (hok2 : RunOk P1 ops2)
+    (hends1 : SearchEnds (cfg0.run ((.start P1.ia P1.ih P1.ann, P1.T0) :: ops1)) P1.ia)
+    (hlate : T1 + P1.D < (cfg0.run (P1.ops ops1 T1 ops2)).now)
+    (hN : P2.N = P1.N) (hih : P2.ih = P1.ih) (hx : P2.x = connectAddr P1.port P1.a.addr)
+    (hMust : P2.Must = HoldsLive (cfg0.run (P1.ops ops1 T1 ops2)) P2.ih P2.x P2.G) (hlife : P2.G < T1 + 86400000000000)
+    (hR2 : Ready P2 (cfg0.run (P1.ops ops1 T1 ops2))) (hTG2 : P2.T0 ≤ P2.G) (ops3 ops4 : List (NOp × Nat)) (T2 : Nat)
+    (hrun2 : NetRun P2.D (cfg0.run (P1.ops ops1 T1 ops2)) (P2.ops ops3 T2 ops4)) (hok3 : RunOk P2 ops3) (hT2 : T2 ≤ P2.G)
+    (hok4 : RunOk P2 ops4)
+    (hends2 : SearchEnds ((cfg0.run (P1.ops ops1 T1 ops2)).run ((.start P2.ia P2.ih P2.ann, P2.T0) :: ops3)) P2.ia) :
+    (P2.ia, P2.stream, connectAddr P1.port P1.a.addr) ∈ ((cfg0.run (P1.ops ops1 T1 ops2)).run (P2.ops ops3 T2 ops4)).yields := by
+  -- some node is among the 8 closest, and it holds the pair
+  obtain ⟨y, hy⟩ := List.exists_mem_of_ne_nil _ (closest8_ne_nil P1.ih (a_mem hW1))
+  have hyN : y ∈ P1.N := mem_closestK hy
+  rcases C01_announce_reaches_all P1 hW1 hann cfg0 hR1 hTG1 ops1 ops2 T1 hrun1 hok1 hT1 hok2 hends1 y hy with ⟨h1, _⟩ | ⟨k, n, t, hk, hn, ht, h1, _⟩
+  · omega
+  · have hm : P2.Must y := by
+      rw [hMust]
+      exact ⟨k, n, t, hk, hn, by rw [hih, hx]; exact ht, by omega⟩
+    have := C01_search_finds P2 hW2 _ hR2 hTG2 ops3 ops4 T2 hrun2 hok3 hT2 hok4 hends2 y (by rw [hN]; exact hyN) hm
+    rw [hx] at this
+    exact this
+
+/-! ## Non-vacuity: a concrete network of three nodes
+
+Nodes 1, 2, 3 (ids `0…0k`, addresses `10.0.0.k:6881`, announce port 7000), each serving, with a
+routing table holding the two others as good nodes and six free slots; info-hash `0…09`; latency
+bound 5 ms. Node 1 announces from instant 1000 s (phase `c01P1`); every datagram is delivered 1 ms
+after the previous step; the end-game entry fires at 1001.506 s. Then node 3 searches (phase `c01P2`).
+All hypotheses of the theorems hold on this run (`Table.addNode` is not kernel-evaluable, so the run
+is evaluated through the shadow step of `Proofs/NetCheck.lean`, proved equal to the real one). -/
+
+def c01H (k : Nat) : Handle := ⟨List.replicate 19 0 ++ [k], ⟨false, [10, 0, 0, k], 6881⟩⟩
+def c01Ih : Bytes := List.replicate 19 0 ++ [9]
+def c01T0 : Nat := 1000000000000
+def c01N : List Handle := [c01H 1, c01H 2, c01H 3]
+def c01Slots (k : Nat) : List Node :=
+  (([1, 2, 3].filter (· ≠ k)).map fun j => Node.asGood (c01H j) c01T0) ++ List.replicate 6 (Node.asBad placeholderHandle)
+def c01Table (k : Nat) : Table := { selfId := (c01H k).id, routers := [], buckets := [⟨c01Slots k⟩] }
+def c01Node (k : Nat) : NNode :=
+  ⟨(c01H k).addr, { HState.new (c01H k).id false false (some 7000) [] c01T0 with table := c01Table k }⟩
+def c01Cfg0 : NetCfg := { nodes := [c01Node 1, c01Node 2, c01Node 3], flight := [], now := c01T0, yields := [] }
+/-- the contact node 1 announces: its IP with its announce port -/
+def c01X : Addr := ⟨false, [10, 0, 0, 1], 7000⟩
+
+def c01P1 : Phase :=
+  { N := c01N, G := 1600000000000, D := 5000000, ia := 0, a := c01H 1, A := 2, ih := c01Ih,
+    ann := true, stream := 0, port := some 7000, T0 := c01T0, x := c01X, Must := fun _ => False, Src := fun _ _ => True, Y0 := [] }
+
+def c01Ops1 : List (NOp × Nat) :=
+  [(.deliver 0, 1000001000000), (.deliver 0, 1000002000000), (.deliver 0, 1000003000000),
+   (.deliver 0, 1000004000000), (.deliver 0, 1000005000000), (.deliver 0, 1000006000000)]
+def c01T1 : Nat := 1001506000000
+def c01Ops2 : List (NOp × Nat) :=
+  [(.deliver 0, 1001507000000), (.deliver 0, 1001508000000), (.deliver 0, 1001509000000),
+   (.deliver 0, 1001510000000), (.deliver 0, 1001511000000), (.deliver 0, 1001512000000)]
+
+theorem c01_netOk : NetOk c01N c01Ih := ⟨by decide, by decide, by decide, by decide⟩
+
+theorem c01_wf1 : NetWF c01P1 :=
+  ⟨c01_netOk, by decide, by decide, by decide, by decide, by decide, by decide, by decide, by decide, by decide, by decide,
+   by decide, rfl⟩
+
+theorem c01_knows (k : Nat) (hk : k = 1 ∨ k = 2 ∨ k = 3) :
+    Knows (c01H k).id (c01N.filter (· ≠ c01H k)) 1600000000000 (c01Table k) := by
+  rcases hk with rfl | rfl | rfl <;>
+    exact ⟨rfl, rfl, by decide +kernel, _, rfl, by decide, by decide, by decide, by unfold HandlesOk; decide⟩
+
+theorem c01_nodeOk (P : Phase) (hN : P.N = c01N) (hG : P.G = 1600000000000) (hM : ∀ x, ¬ P.Must x)
+    (k : Nat) (hk : k = 1 ∨ k = 2 ∨ k = 3) : NodeOk P c01T0 (k - 1) (c01Node k) := by
+  refine ⟨by rw [hN]; rcases hk with rfl | rfl | rfl <;> rfl, ?_, Nat.le_refl _, stWF_empty _,
+    by unfold othersCount; simp [c01Node, HState.new, Storage.empty], fun hm => absurd hm (hM _),
+    fun te hte => by simp [c01Node, HState.new, Timer.new] at hte⟩
+  rw [hN, hG]
+  exact ⟨rfl, rfl, by rcases hk with rfl | rfl | rfl <;> decide, c01_knows k hk,
+    by rcases hk with rfl | rfl | rfl <;> decide, by rcases hk with rfl | rfl | rfl <;> decide⟩
+
+theorem c01_nodes (P : Phase) (hN : P.N = c01N) (hG : P.G = 1600000000000) (hM : ∀ x, ¬ P.Must x) :
+    ∀ (k : Nat) (n : NNode), c01Cfg0.nodes[k]? = some n → NodeOk P c01Cfg0.now k n := by
+  intro k n hk
+  match k, hk with
+  | 0, hk => cases hk; exact c01_nodeOk P hN hG hM 1 (Or.inl rfl)
+  | 1, hk => cases hk; exact c01_nodeOk P hN hG hM 2 (Or.inr (Or.inl rfl))
+  | 2, hk => cases hk; exact c01_nodeOk P hN hG hM 3 (Or.inr (Or.inr rfl))
+  | k + 3, hk => simp [c01Cfg0] at hk
+
+theorem c01_ready1 : Ready c01P1 c01Cfg0 :=
+  ⟨rfl, c01_nodes c01P1 rfl rfl (fun _ h => h), fun k n hk => by
+      match k, hk with
+      | 0, hk => cases hk; rfl
+      | 1, hk => cases hk; rfl
+      | 2, hk => cases hk; rfl
+      | k + 3, hk => simp [c01Cfg0] at hk,
+   rfl, Nat.le_refl _, fun _ _ _ _ _ _ _ => trivial, rfl, ⟨c01Node 1, rfl, rfl, rfl, rfl, rfl⟩⟩
+
+theorem c01_check1 : checkS c01P1.D c01Cfg0 (c01P1.ops c01Ops1 c01T1 c01Ops2) = true := by decide +kernel
+theorem c01_run1 : NetRun c01P1.D c01Cfg0 (c01P1.ops c01Ops1 c01T1 c01Ops2) := (run_of_checkS _ _ _ c01_check1).1
+theorem c01_eq1 : c01Cfg0.run (c01P1.ops c01Ops1 c01T1 c01Ops2) = c01Cfg0.runS (c01P1.ops c01Ops1 c01T1 c01Ops2) :=
+  (run_of_checkS _ _ _ c01_check1).2
+theorem c01_ok1 : RunOk c01P1 c01Ops1 := runOk_of_all _ _ (by decide)
+theorem c01_ok2 : RunOk c01P1 c01Ops2 := runOk_of_all _ _ (by decide)
+theorem c01_ends1 : SearchEnds (c01Cfg0.run ((.start c01P1.ia c01P1.ih c01P1.ann, c01P1.T0) :: c01Ops1)) c01P1.ia := by
+  rw [(run_of_checkS c01P1.D _ c01Cfg0 (by decide +kernel)).2]
+  exact searchEnds_of_B _ _ (by decide +kernel)
+
+/-- Non-vacuity of `C01_announce_reaches_all`: all hypotheses hold on the concrete run; the theorem
+gives, for each of the three nodes (the 8 closest of three), the stored pair or the announce in
+flight — and evaluation confirms that at the end each node holds `(0…09, 10.0.0.1:7000)`, inserted
+1, 3 and 2 ms after the search ended. -/
+example :
+    (∀ x ∈ c01N, ((c01Cfg0.run (c01P1.ops c01Ops1 c01T1 c01Ops2)).now ≤ c01T1 + c01P1.D ∧
+        ∃ p ∈ (c01Cfg0.run (c01P1.ops c01Ops1 c01T1 c01Ops2)).flight, IsAnnTo c01P1 x p) ∨
+      ∃ (k : Nat) (n : NNode) (t : Nat), (c01Cfg0.run (c01P1.ops c01Ops1 c01T1 c01Ops2)).nodes[k]? = some n ∧ n.handle = x ∧
+        Held n.st.store ⟨c01Ih, c01X⟩ t ∧ c01T1 ≤ t ∧ t ≤ c01T1 + c01P1.D) ∧
+    (c01Cfg0.run (c01P1.ops c01Ops1 c01T1 c01Ops2)).nodes.map (fun n => n.st.store.expires) =
+      [[⟨⟨c01Ih, c01X⟩, 1001507000000⟩], [⟨⟨c01Ih, c01X⟩, 1001509000000⟩], [⟨⟨c01Ih, c01X⟩, 1001508000000⟩]] := by
+  refine ⟨fun x hx => ?_, by rw [c01_eq1]; decide +kernel⟩
+  exact C01_announce_reaches_all c01P1 c01_wf1 rfl c01Cfg0 c01_ready1 (by decide) c01Ops1 c01Ops2 c01T1 c01_run1 c01_ok1 (by decide)
+    c01_ok2 c01_ends1 x (closest8_all _ _ (by decide) x hx)
+
+/-! the second phase: node 3 searches the same info-hash in the network the first phase left behind -/
+
+/-- the network at the end of the first phase -/
+def c01Cfg1 : NetCfg := c01Cfg0.run (c01P1.ops c01Ops1 c01T1 c01Ops2)
+def c01Cfg1S : NetCfg := c01Cfg0.runS (c01P1.ops c01Ops1 c01T1 c01Ops2)
+theorem c01_cfg1 : c01Cfg1 = c01Cfg1S := c01_eq1
+
+def c01P2 : Phase :=
+  { N := c01N, G := 1600000000000, D := 5000000, ia := 2, a := c01H 3, A := 2, ih := c01Ih,
+    ann := false, stream := 0, port := some 7000, T0 := 1001513000000, x := c01X,
+    Must := HoldsLive c01Cfg1 c01Ih c01X 1600000000000, Src := fun _ _ => True, Y0 := c01Cfg1.yields }
+
+def c01Ops3 : List (NOp × Nat) :=
+  [(.deliver 0, 1001514000000), (.deliver 0, 1001515000000), (.deliver 0, 1001516000000), (.deliver 0, 1001517000000),
+   (.deliver 0, 1001518000000), (.deliver 0, 1001519000000), (.deliver 0, 1001520000000), (.deliver 0, 1001521000000)]
+def c01T2 : Nat := 1003019000000
+
+theorem c01_wf2 : NetWF c01P2 :=
+  ⟨c01_netOk, by decide, by decide, by decide, by decide, by decide, by decide, by decide, by decide, by decide, by decide,
+   by decide, rfl⟩
+
+theorem c01P2_must : c01P2.Must = HoldsLive c01Cfg1 c01P2.ih c01P2.x c01P2.G := by
+  simp only [c01P2]
+theorem c01P2_y0 : c01P2.Y0 = c01Cfg1.yields := by
+  simp only [c01P2]
+
+theorem c01_ready2 : Ready c01P2 c01Cfg1 := by
+  obtain ⟨c, h, _⟩ := phase_run c01_wf1 c01_ready1 (by decide) c01Ops1 c01Ops2 c01T1 c01_run1 c01_ok1 (by decide) c01_ok2 c01_ends1
+  have h' : SInv c01P1 c01Cfg1 c (some c01T1) := h
+  clear h
+  refine ready_next (P2 := c01P2) (cfg := c01Cfg1) c01_wf1 h' ?_ (Eq.refl c01N) (Eq.refl 1600000000000) c01P2_must
+    (fun _ _ => trivial) c01P2_y0 (fun k n hk => ?_) ?_ ?_
+  · show c01Cfg1.flight = []
+    rw [c01_cfg1]; decide +kernel
+  · have hall : c01Cfg1.nodes.all (fun n => decide (othersCount n.st.store c01P2.item ≤ 39)) = true := by
+      rw [c01_cfg1]; decide +kernel
+    have := List.all_eq_true.mp hall n (List.mem_of_getElem? hk)
+    simpa using this
+  · show c01Cfg1.now ≤ c01P2.T0
+    rw [c01_cfg1]; decide +kernel
+  · exact client_of_B c01Cfg1 2 2 0 (some 7000) (by rw [c01_cfg1]; decide +kernel)
+
+theorem c01_check2 : checkS c01P2.D c01Cfg1S (c01P2.ops c01Ops3 c01T2 []) = true := by decide +kernel
+theorem c01_run2 : NetRun c01P2.D c01Cfg1 (c01P2.ops c01Ops3 c01T2 []) := by
+  rw [c01_cfg1]; exact (run_of_checkS _ _ _ c01_check2).1
+theorem c01_ok3 : RunOk c01P2 c01Ops3 := runOk_of_all _ _ (by decide)
+theorem c01_ends2 : SearchEnds (c01Cfg1.run ((.start c01P2.ia c01P2.ih c01P2.ann, c01P2.T0) :: c01Ops3)) c01P2.ia := by
+  rw [c01_cfg1, (run_of_checkS c01P2.D _ c01Cfg1S (by decide +kernel)).2]
+  exact searchEnds_of_B _ _ (by decide +kernel)
+
+/-- Non-vacuity of `C01_search_finds`, `C01_expired_not_found` and `C01_end_to_end`: all their
+hypotheses hold on the concrete two-phase run — node 1 announces, then node 3 searches — and the
+composition theorem yields that node 3's stream 0 yields node 1's contact `10.0.0.1:7000`
+(its IP with its configured announce port). -/
+example : (2, 0, c01X) ∈ (c01Cfg1.run (c01P2.ops c01Ops3 c01T2 [])).yields := by
+  have hlate : c01T1 + c01P1.D < (c01Cfg0.run (c01P1.ops c01Ops1 c01T1 c01Ops2)).now := by
+    rw [c01_eq1]; decide +kernel
+  exact C01_end_to_end c01P1 c01P2 c01_wf1 c01_wf2 rfl c01Cfg0 c01_ready1 (by decide) c01Ops1 c01Ops2 c01T1 c01_run1 c01_ok1
+    (by decide) c01_ok2 c01_ends1 hlate rfl rfl rfl c01P2_must (by decide) c01_ready2 (by decide) c01Ops3 [] c01T2 c01_run2 c01_ok3
+    (by decide) (fun _ h => by cases h) c01_ends2
+
+/-- … and every yield of that run is one of node 3's stream 0 (`C01_expired_not_found` with the
+trivial `Src`; the earlier history `Y0` is empty) -/
+example : ∀ e ∈ (c01Cfg1.run (c01P2.ops c01Ops3 c01T2 [])).yields,
+    e ∈ c01P2.Y0 ∨ (e.1 = 2 ∧ e.2.1 = 0 ∧ ∃ h ∈ c01N, True) :=
+  C01_expired_not_found c01P2 c01_wf2 c01Cfg1 c01_ready2 (by decide) c01Ops3 [] c01T2 c01_run2 c01_ok3 (by decide)
+    (fun _ h => by cases h) c01_ends2
+
+/-- Non-vacuity of `C01_server_contract`: node 1 of the network above serves and knows exactly
+nodes 2 and 3; after a `ping` and a `get_peers` from strangers it still does, and answers a
+`get_peers` with the node list `{node 2, node 3}`. -/
+example :
+    let s := ((c01Node 1).st.runOps
+      [(.incoming (.raw [1]) (.req (.ping (List.replicate 20 7))) ⟨false, [172, 16, 0, 1], 4000⟩, c01T0),
+       (.incoming (.raw [2]) (.req (.getPeers (List.replicate 20 7) c01Ih none)) ⟨false, [172, 16, 0, 1], 4000⟩, c01T0 + 5)])
+    Serves (c01N.filter (· ≠ c01H 1)) 1600000000000 s ∧
+    ∃ rs, (s.handleRequest (.raw [3]) (.getPeers [] c01Ih none) ⟨false, [172, 16, 0, 9], 1⟩ (c01T0 + 9)).2 =
+        [.send ⟨false, [172, 16, 0, 9], 1⟩ (.raw [3]) (.resp rs) true] ∧
+      (∀ x ∈ rs.nodes4, x = c01H 2 ∨ x = c01H 3) ∧ c01H 2 ∈ rs.nodes4 ∧ c01H 3 ∈ rs.nodes4 := by
+  intro s
+  have hs : Serves (c01N.filter (· ≠ c01H 1)) 1600000000000 (c01Node 1).st :=
+    (c01_nodeOk c01P1 rfl rfl (fun _ h => h) 1 (Or.inl rfl)).serves
+  obtain ⟨h1, h2⟩ := C01_server_contract _ _ _ hs
+    [(.incoming (.raw [1]) (.req (.ping (List.replicate 20 7))) ⟨false, [172, 16, 0, 1], 4000⟩, c01T0),
+     (.incoming (.raw [2]) (.req (.getPeers (List.replicate 20 7) c01Ih none)) ⟨false, [172, 16, 0, 1], 4000⟩, c01T0 + 5)]
+    (by intro p hp; simp only [List.mem_cons, List.mem_nil_iff, or_false] at hp; rcases hp with rfl | rfl <;> exact ⟨_, _, _, rfl⟩)
+  refine ⟨h1, ?_⟩
+  obtain ⟨rs, r1, _, _, _, r5, r6⟩ := h2 (.raw [3]) [] c01Ih ⟨false, [172, 16, 0, 9], 1⟩ (c01T0 + 9) (by decide)
+  refine ⟨rs, r1, fun x hx => ?_, r6 _ (by decide), r6 _ (by decide)⟩
+  obtain ⟨hm, hne⟩ := List.mem_filter.mp (r5 x hx)
+  have hne' : x ≠ c01H 1 := by simpa using hne
+  simp only [c01N, List.mem_cons, List.mem_nil_iff, or_false] at hm
+  rcases hm with h | h | h
+  · exact absurd h hne'
+  · exact Or.inl h
+  · exact Or.inr h
 
 end Btdht
